@@ -787,16 +787,21 @@ class SamplingMethod(DirectMethod):
     def get_signals_at(self, stage, k=-1):
         return veccat(*[e.sampled[k] for e in self.signals.values()])
 
-    def get_p_sys(self, stage, k, include_signals=True):
+    def get_p_sys(self, stage, k, include_signals=True, signal_values=None, n=1):
         # Same layout as the parameter input of the system function: vertcat(stage.p, stage.v)
+        # signal_values: values (n columns) of the bspline signals, keyed by symbol, to use instead of those at control node k
         def signals_at(symbols):
+            if signal_values is not None:
+                return [signal_values[s] for s in symbols]
             return [self.signals[s].sampled[k] for s in symbols] if include_signals else []
-        args = [vvcat(self.P),
-                self.get_p_control_at(stage, k),
-                self.get_p_control_plus_at(stage, k)] + \
+        def rep(e):
+            return e if n==1 else repmat(e, 1, n)
+        args = [rep(vvcat(self.P)),
+                rep(self.get_p_control_at(stage, k)),
+                rep(self.get_p_control_plus_at(stage, k))] + \
                signals_at(stage.parameters['bspline']) + \
-               [self.V, self.get_v_control_at(stage, k),
-                self.get_v_control_plus_at(stage, k)] + \
+               [rep(self.V), rep(self.get_v_control_at(stage, k)),
+                rep(self.get_v_control_plus_at(stage, k))] + \
                signals_at(stage.variables['bspline'])
         return vcat(args)
 
